@@ -93,9 +93,10 @@ CONF = {
         "node' transition is modelled behind AllowMigrate / VERIF_C05_EXT and NOT part of the verdict); the plugin's handler and the "
         "scheduler-wide handler (DeleteReservation) run in either order per event; duplicates and resyncs included",
         "(F) is demanded in the reserved dimensions the pod requests (a zero request adds nothing to the sum); the pod-count rule "
-        "counts one slot per assigned pod; fit check exercised through fitsNodeAndReservation with the node part skipped",
+        "counts one slot per assigned pod and subtracts the preemptible pod count as given (not clamped); fit check exercised through fitsNodeAndReservation with the node part skipped",
         "(M) owner vocabulary: label selector app=a|b, object reference (pod name / namespace), controller reference (ReplicaSet name / "
-        "namespace), empty term, no terms, unparsable term; reservation-ignored pods, taints, exact-match and pre-allocation are not generated",
+        "namespace), empty term, no terms, unparsable term; reservation-ignored pods, taints, exact-match, pre-allocation, "
+        "operating-mode pods and the (never written by this code base) Waiting phase are not generated",
         "nomination is observed after BeforePreFilter, PreFilter and Filter of the same cycle with lazy reservation restore "
         "(the scheduler cache / NodeInfo is not part of the harness); remembered nominations (AddNominatedReservation) are not exercised",
         "TLC integers are 32-bit: every logged amount and every sum stays below 2^31 (random amounts up to 1e6)",
